@@ -90,7 +90,11 @@ def _case(draw, shard):
         alpha=draw(st.sampled_from([1.0, 0.01, 50.0])),
         seed=draw(st.integers(0, 2 ** 31 - 1)),
         rare_gamma_zero_at=draw(st.sampled_from([None, 0, None, 1, 3])) if not via_run else None,
+        G=1001 if (shard % 12 == 5) else 11,
     )
+    if c["G"] > 11:
+        c["iters"] = min(c["iters"], 2)
+        c["N"] = min(c["N"], 3)
     if via_run:
         from vp.checks.c05 import _counts, _row_params
 
@@ -135,7 +139,7 @@ def evaluate(case):
                 from phyclone.run import run_phyclone_chain
 
                 vs = case["values"]
-                values = gen.make_values(case["n"], case["dims"], 11, vs["seed"], vs["regime"], vs["scale"])
+                values = gen.make_values(case["n"], case["dims"], case.get("G", 11), vs["seed"], vs["regime"], vs["scale"])
                 dd = gen.make_datapoints(values, outlier_prior=case["outlier_prob"])
                 data = [dd[i] for i in range(case["n"])]
                 rng = np.random.default_rng(case["seed"]) if case.get("rare_gamma_zero_at") is None else RareDrawGenerator(case["seed"], case["rare_gamma_zero_at"])
@@ -215,6 +219,8 @@ def evaluate(case):
     if case["n"] == 1:
         bounds.append("n=1")
     classes = ["kind:" + case["kind"], "prop:" + case["proposal"]] + bounds
+    if case.get("G", 11) >= 1000 and case["kind"] == "chain":
+        classes.append("grid>=1000(fft path)")
     if case["kind"] == "chain" and case.get("rare_gamma_zero_at") is not None and getattr(rng, "injected", 0):
         classes.append("rare-draw-injected:gamma=0")
     return Outcome(nontrivial=case["n"] >= 2 and len(bounds) > 0, classes=tuple(classes), info={k: v for k, v in case.items() if k not in ("rows", "values")}, weight=len(trace))
